@@ -81,14 +81,18 @@ pub struct Program {
     pub cfg: Cfg,
     pub init: Init,
     pub threads: Vec<Vec<TOp>>,
+    /// 1: calls on staging/ paths are scheduling points too
+    #[serde(default)]
+    pub vis: u8,
 }
 
 impl Program {
     pub fn show(&self) -> String {
         format!(
-            "[{} init={:?}] {}",
+            "[{} init={:?}{}] {}",
             self.cfg.show(),
             self.init,
+            if self.vis == 1 { " staging-visible" } else { "" },
             self.threads.iter().enumerate().map(|(i, t)| format!("T{i}: {}", t.iter().map(|o| o.show()).collect::<Vec<_>>().join("; "))).collect::<Vec<_>>().join(" || ")
         )
     }
@@ -390,7 +394,7 @@ pub fn run_one(p: &Program, tmpl: &(Image, BTreeMap<String, Vec<u8>>), prefix: &
                 monitor_step(&dir_m, &cas_m, step, &mut step_findings, prev);
             }
         };
-        sched::run_schedule(&dir, bodies, prefix, sched::visible_default, &mut monitor, Duration::from_secs(20))
+        sched::run_schedule(&dir, bodies, prefix, if p.vis == 1 { sched::visible_with_staging } else { sched::visible_default }, &mut monitor, Duration::from_secs(20))
     };
     drop(cas_m);
     findings.extend(step_findings);
@@ -640,7 +644,7 @@ pub fn programs(tier: &str) -> Vec<(Program, Option<usize>)> {
                 if (a.is_cleanup() || b.is_cleanup()) && init != Init::AOrphan {
                     continue;
                 }
-                v.push((Program { cfg: big, init, threads: vec![vec![a], vec![b]] }, None));
+                v.push((Program { cfg: big, init, threads: vec![vec![a], vec![b]], vis: 0 }, None));
             }
         }
     }
@@ -654,7 +658,7 @@ pub fn programs(tier: &str) -> Vec<(Program, Option<usize>)> {
             if quick && (a.is_read() || b.is_read() || matches!(a, TOp::Abort { .. }) || matches!(b, TOp::Abort { .. })) {
                 continue;
             }
-            v.push((Program { cfg: one, init: Init::A, threads: vec![vec![a], vec![b]] }, None));
+            v.push((Program { cfg: one, init: Init::A, threads: vec![vec![a], vec![b]], vis: 0 }, None));
         }
     }
     use keys::{C_X, C_Y};
@@ -672,7 +676,22 @@ pub fn programs(tier: &str) -> Vec<(Program, Option<usize>)> {
                     continue;
                 }
                 let init = if c.is_cleanup() { Init::AOrphan } else { Init::AB };
-                v.push((Program { cfg: big, init, threads: vec![vec![*a], vec![*b], vec![*c]] }, Some(b3)));
+                v.push((Program { cfg: big, init, threads: vec![vec![*a], vec![*b], vec![*c]], vis: 0 }, Some(b3)));
+            }
+        }
+    }
+    // transactions on the same key / same content with staging/ calls visible (C13: "a concurrent transaction on the same key is unaffected")
+    for (a, b) in [(w(0, C_X), w(0, C_Y)), (w(0, C_X), TOp::Abort { k: 0, c: C_Y }), (TOp::Abort { k: 0, c: C_Y }, TOp::Abort { k: 0, c: C_Y }), (w(0, C_Y), w(1, C_Y))] {
+        v.push((Program { cfg: big, init: Init::A, threads: vec![vec![a], vec![b]], vis: 1 }, if tier == "quick" { Some(3) } else { None }));
+    }
+    // four actors (thorough): two writers on the same key/content, a remover and a reader or clean-up
+    if tier != "quick" {
+        for (a, b) in [(w(0, C_X), w(0, C_Y)), (w(0, C_X), w(1, C_X)), (w(0, C_Y), w(1, C_Y))] {
+            for c in [TOp::Remove { k: 0 }, TOp::RemoveRangeAll] {
+                for d in [TOp::Get { k: 0 }, TOp::GetReader { k: 0 }, TOp::Checkpoint, TOp::DeleteOrphans] {
+                    let init = if d.is_cleanup() { Init::AOrphan } else { Init::AB };
+                    v.push((Program { cfg: big, init, threads: vec![vec![a], vec![b], vec![c], vec![d]], vis: 0 }, Some(2)));
+                }
             }
         }
     }
@@ -683,15 +702,15 @@ pub fn programs(tier: &str) -> Vec<(Program, Option<usize>)> {
                 for a2 in [w(0, C_X), TOp::Remove { k: 0 }, TOp::Get { k: 0 }] {
                     for b1 in writers.iter() {
                         for b2 in [w(1, C_X), TOp::Remove { k: 1 }, TOp::Get { k: 0 }, TOp::Checkpoint] {
-                            v.push((Program { cfg: big, init, threads: vec![vec![*a1, a2], vec![*b1, b2]] }, Some(3)));
+                            v.push((Program { cfg: big, init, threads: vec![vec![*a1, a2], vec![*b1, b2]], vis: 0 }, Some(3)));
                         }
                     }
                 }
             }
         }
     } else {
-        v.push((Program { cfg: big, init: Init::A, threads: vec![vec![w(0, C_X), TOp::Get { k: 0 }], vec![w(0, C_Y), TOp::Remove { k: 0 }]] }, Some(2)));
-        v.push((Program { cfg: big, init: Init::AB, threads: vec![vec![TOp::Abort { k: 0, c: C_Y }, w(0, C_X)], vec![w(0, C_Y), TOp::Get { k: 0 }]] }, Some(2)));
+        v.push((Program { cfg: big, init: Init::A, threads: vec![vec![w(0, C_X), TOp::Get { k: 0 }], vec![w(0, C_Y), TOp::Remove { k: 0 }]], vis: 0 }, Some(2)));
+        v.push((Program { cfg: big, init: Init::AB, threads: vec![vec![TOp::Abort { k: 0, c: C_Y }, w(0, C_X)], vec![w(0, C_Y), TOp::Get { k: 0 }]], vis: 0 }, Some(2)));
     }
     v
 }
@@ -701,7 +720,7 @@ fn relevant(p: &Program, prop: &str) -> bool {
     let ops: Vec<&TOp> = p.threads.iter().flatten().collect();
     let writers = ops.iter().filter(|o| matches!(o, TOp::Put { .. } | TOp::Remove { .. } | TOp::RemoveRangeAll)).count();
     match prop {
-        "C13" => ops.iter().any(|o| matches!(o, TOp::Abort { .. })),
+        "C13" => ops.iter().any(|o| matches!(o, TOp::Abort { .. })) || p.vis == 1,
         "C08" => ops.iter().any(|o| o.is_cleanup()),
         "C07" => ops.iter().all(|o| !o.is_read()) && writers >= 1 && p.init != Init::Empty,
         "C06" => writers >= 1 && ops.iter().all(|o| matches!(o, TOp::Put { .. } | TOp::Remove { .. } | TOp::RemoveRangeAll | TOp::GetReader { .. } | TOp::Abort { .. })) && p.init != Init::Empty,
